@@ -3,6 +3,8 @@ import PfVerif.Proofs.C19Feat
 import PfVerif.Proofs.C19Nup
 import PfVerif.Proofs.C19Ok6
 import PfVerif.Proofs.C19Seg
+import PfVerif.Proofs.C19SegTotal
+import PfVerif.Proofs.C19Join
 /-! # C19 — stream vectorisation covers every link exactly once, split at confluences
 
 Three groups of theorems, each for ALL inputs (no bound on network size, stream length or
@@ -19,7 +21,11 @@ Three groups of theorems, each for ALL inputs (no bound on network size, stream 
 Second stage (proved): `streams_model_ok` — for every downstream-first order that contains the stream
 cells and every downstream-closed mask the model returns (fuel suffices) and its output satisfies the
 certificate `StreamsOK`; hence `streams_model_cover` (every link exactly once), `streams_model_pits`.
-`walk_total` is the fuel-totality of the inner walk on a `Topo` order. -/
+`walk_total` is the fuel-totality of the inner walk on a `Topo` order.
+
+Third round: `segment_walk_total`, `segment_walk_total_up`, `segment_indices_total(_up)` - the model of
+`subgrid.segment_indices` returns on every loop-free network in both directions (no fuel hypothesis left
+anywhere: `streams_model_total`); `split_concat` - the pieces glue back to the unsplit stream. -/
 namespace Pf.C19
 open Pf
 
@@ -85,6 +91,19 @@ example : splitPieces [9, 8, 7, 6, 5] 2 = [[9, 8, 7], [7, 6, 5]] := by decide
 theorem split_size (idxs : List Nat) (m : Nat) (hm : 0 < m) :
     ∀ p ∈ splitPieces idxs m, 2 * p.length ≤ 3 * m + 1 :=
   splitPieces_size idxs m hm
+
+/-- **concatenation** (vertex level, every vertex list and EVERY `max_len`, 0 included): gluing the pieces
+back together - the first piece, then every later piece without its first vertex, which by `split_chain`
+is the last vertex of the piece before (`joinPieces`) - gives back the unsplit stream. -/
+theorem split_concat (idxs : List Nat) (m : Nat) : joinPieces (splitPieces idxs m) = idxs :=
+  splitPieces_join idxs m
+
+example : splitPieces [6, 5, 4, 3, 2, 1, 0] 2 = [[6, 5, 4], [4, 3, 2], [2, 1, 0], [0]] ∧
+    joinPieces [[6, 5, 4], [4, 3, 2], [2, 1, 0], [0]] = [6, 5, 4, 3, 2, 1, 0] := by decide
+/-- the size bound of `split_size`, `(3·m + 1) / 2` vertices, cannot be improved to `m + 1` vertices: a stream
+of 7 vertices with `max_len = 3` is cut into `k = round(7/3) = 2` pieces of `n = round(7/2) = 4` links, the
+first piece has 5 vertices (the code returns `[6,5,4,3,2], [2,1,0]` on the chain 6→…→0). -/
+example : splitPieces [6, 5, 4, 3, 2, 1, 0] 3 = [[6, 5, 4, 3, 2], [2, 1, 0]] ∧ 2 * 5 = 3 * 3 + 1 := by decide
 
 /-- without a maximum length the stream is kept whole -/
 theorem split_none (idxs : List Nat) : splitPieces idxs 0 = [idxs] := by
@@ -463,5 +482,99 @@ theorem segment_indices_spec (idxsOut : List Nat) (nxt : Array Nat) (mask : Opti
 
 example : segmentIndices [4, 1] #[0, 0, 1, 1, 3] none 0 = some [[4, 3, 1], [1, 0], [0, 0]] := by decide
 example : segmentIndices [4] #[0, 0, 1, 1, 3] none 2 = some [[4, 3]] := by decide
+
+/-! ### totality of the segment walk (third round) -/
+
+/-- **fuel totality of the segment walk, direction "down"** (`idxs_nxt = idxs_ds`): on a downstream-first
+order (`Topo`, i.e. a loop-free network) whose cells are in range, the inner `while True` of
+`subgrid.segment_indices` started at any cell of the order - with any outlet flags, mask, `max_len` and any
+vertices already collected - returns within the `n + 1` steps of fuel the model uses: `none` ("fuel
+exhausted") never occurs. -/
+theorem segment_walk_total (ds : Array Nat) (seq : List Nat) (htopo : Topo ds seq)
+    (hb : ∀ i ∈ seq, i < ds.size) (outlets : Array Bool) (mask : Option (Array Bool)) (maxLen : Nat)
+    (c : Nat) (hc : c ∈ seq) (acc : List Nat) :
+    ∃ r, segWalk ds outlets mask maxLen (ds.size + 1) c acc = some r :=
+  segWalk_total_down ds seq htopo hb outlets mask maxLen c hc acc
+
+/-- **fuel totality of the segment walk, direction "up"** (`idxs_nxt = idxs_us_main`): the same along any
+upstream-link array `us` of a loop-free network `ds` (per cell the missing value or an inflowing cell other
+than the cell itself - `core.main_upstream` returns such an array, C11 `mainUpstream_argmax`), from every
+cell in range, when the order contains every valid cell. -/
+theorem segment_walk_total_up (ds us : Array Nat) (seq : List Nat) (htopo : Topo ds seq)
+    (hb : ∀ i ∈ seq, i < ds.size) (hall : ∀ i, i < ds.size → ds[i]! ≠ ds.size → i ∈ seq)
+    (hsz : us.size = ds.size)
+    (hlink : ∀ c, c < ds.size → us[c]! = ds.size ∨ (us[c]! < ds.size ∧ ds[us[c]!]! = c ∧ us[c]! ≠ c))
+    (outlets : Array Bool) (mask : Option (Array Bool)) (maxLen : Nat)
+    (c : Nat) (hc : c < ds.size) (acc : List Nat) :
+    ∃ r, segWalk us outlets mask maxLen (us.size + 1) c acc = some r :=
+  segWalk_total_up ds us seq htopo hb hall hsz hlink outlets mask maxLen c hc acc
+
+/-- **`segment_indices` returns, direction "down"**: for every loop-free network with an order containing
+every valid cell, every list of outlet pixels (missing entries `= n` and pixels outside the network
+included), every mask and every `max_len`, the model of `subgrid.segment_indices` returns a list of index
+arrays - no fuel hypothesis - and that list satisfies `segment_indices_spec`. -/
+theorem segment_indices_total (ds : Array Nat) (seq : List Nat) (htopo : Topo ds seq)
+    (hb : ∀ i ∈ seq, i < ds.size) (hall : ∀ i, i < ds.size → ds[i]! ≠ ds.size → i ∈ seq)
+    (idxsOut : List Nat) (hout : ∀ c ∈ idxsOut, c ≤ ds.size) (mask : Option (Array Bool)) (maxLen : Nat) :
+    ∃ out, segmentIndices idxsOut ds mask maxLen = some out := by
+  unfold segmentIndices
+  refine foldlM_seg_total ds _ mask maxLen idxsOut [] ?_
+  intro c hc hne
+  have hlt : c < ds.size := by have := hout c hc; omega
+  by_cases hv : ds[c]! = ds.size
+  · exact segWalk_offnet ds _ mask maxLen _ c [c] hv
+  · exact segWalk_total_down ds seq htopo hb _ mask maxLen c (hall c hlt hv) [c]
+
+/-- **`segment_indices` returns, direction "up"** (the default of `FlwdirRaster.streams(idxs_out=...)`):
+the same along an upstream-link array of the network. -/
+theorem segment_indices_total_up (ds us : Array Nat) (seq : List Nat) (htopo : Topo ds seq)
+    (hb : ∀ i ∈ seq, i < ds.size) (hall : ∀ i, i < ds.size → ds[i]! ≠ ds.size → i ∈ seq)
+    (hsz : us.size = ds.size)
+    (hlink : ∀ c, c < ds.size → us[c]! = ds.size ∨ (us[c]! < ds.size ∧ ds[us[c]!]! = c ∧ us[c]! ≠ c))
+    (idxsOut : List Nat) (hout : ∀ c ∈ idxsOut, c ≤ ds.size) (mask : Option (Array Bool)) (maxLen : Nat) :
+    ∃ out, segmentIndices idxsOut us mask maxLen = some out := by
+  unfold segmentIndices
+  refine foldlM_seg_total us _ mask maxLen idxsOut [] ?_
+  intro c hc hne
+  have hlt : c < ds.size := by have := hout c hc; rw [hsz] at hne; omega
+  exact segWalk_total_up ds us seq htopo hb hall hsz hlink _ mask maxLen c hlt [c]
+
+/-- **the model of `streams.streams` needs no fuel hypothesis either**: under the hypotheses of
+`streams_model_ok` (loop-free order containing the stream cells, downstream-closed mask) the model never
+returns `none`; stated separately so that the absence of any fuel assumption is explicit. -/
+theorem streams_model_total (ds : Array Nat) (seq : List Nat) (mask : Option (Array Bool)) (m : Nat)
+    (htopo : Topo ds seq) (hb : ∀ i ∈ seq, i < ds.size)
+    (hcov : ∀ i, inStream ds mask i = true → i ∈ seq) (hcl : dsClosed ds mask = true) :
+    streamsModel ds seq mask m ≠ none := by
+  obtain ⟨feats, h, _⟩ := streams_model_ok ds seq mask m htopo hb hcov hcl
+  rw [h]; exact fun h => nomatch h
+
+/-- non-vacuity: the theorems applied to the network 4→3→1→0, 2→1 with cell 5 outside the network, outlet
+list with a missing entry (6 = n) and an off-network pixel (5); in direction "up" along the main-upstream
+array `[1, 3, 6, 4, 6, 6]` -/
+example : ∃ out, segmentIndices [4, 6, 1, 5] #[0, 0, 1, 1, 3, 6] none 0 = some out := by
+  have h0 : Topo #[0, 0, 1, 1, 3, 6] [] := Topo.nil
+  have h1 : Topo #[0, 0, 1, 1, 3, 6] ([] ++ [0]) := Topo.snoc h0 (by simp) (Or.inl (by decide))
+  have h2 : Topo #[0, 0, 1, 1, 3, 6] ([0] ++ [1]) := Topo.snoc h1 (by simp) (Or.inr (by decide))
+  have h3 : Topo #[0, 0, 1, 1, 3, 6] ([0, 1] ++ [2]) := Topo.snoc h2 (by simp) (Or.inr (by decide))
+  have h4 : Topo #[0, 0, 1, 1, 3, 6] ([0, 1, 2] ++ [3]) := Topo.snoc h3 (by simp) (Or.inr (by decide))
+  have h5 : Topo #[0, 0, 1, 1, 3, 6] ([0, 1, 2, 3] ++ [4]) := Topo.snoc h4 (by simp) (Or.inr (by decide))
+  exact segment_indices_total _ [0, 1, 2, 3, 4] h5 (by decide) (by decide) _ (by decide) none 0
+example : segmentIndices [4, 6, 1, 5] #[0, 0, 1, 1, 3, 6] none 0 = some [[4, 3, 1], [1, 0], [0, 0]] ∧
+    segmentIndices [0, 6, 3, 5] #[1, 3, 6, 4, 6, 6] none 0 = some [[0, 1, 3], [3, 4]] ∧
+    segmentIndices [0, 6, 3, 5] #[1, 3, 6, 4, 6, 6] none 2 = some [[0, 1], [3, 4]] := by decide
+example : ∃ out, segmentIndices [0, 6, 3, 5] #[1, 3, 6, 4, 6, 6] none 2 = some out := by
+  have h0 : Topo #[0, 0, 1, 1, 3, 6] [] := Topo.nil
+  have h1 : Topo #[0, 0, 1, 1, 3, 6] ([] ++ [0]) := Topo.snoc h0 (by simp) (Or.inl (by decide))
+  have h2 : Topo #[0, 0, 1, 1, 3, 6] ([0] ++ [1]) := Topo.snoc h1 (by simp) (Or.inr (by decide))
+  have h3 : Topo #[0, 0, 1, 1, 3, 6] ([0, 1] ++ [2]) := Topo.snoc h2 (by simp) (Or.inr (by decide))
+  have h4 : Topo #[0, 0, 1, 1, 3, 6] ([0, 1, 2] ++ [3]) := Topo.snoc h3 (by simp) (Or.inr (by decide))
+  have h5 : Topo #[0, 0, 1, 1, 3, 6] ([0, 1, 2, 3] ++ [4]) := Topo.snoc h4 (by simp) (Or.inr (by decide))
+  exact segment_indices_total_up #[0, 0, 1, 1, 3, 6] #[1, 3, 6, 4, 6, 6] [0, 1, 2, 3, 4] h5 (by decide) (by decide)
+    rfl (by decide) _ (by decide) none 2
+example : ∀ c, c < 6 → (#[1, 3, 6, 4, 6, 6] : Array Nat)[c]! = 6 ∨
+    ((#[1, 3, 6, 4, 6, 6] : Array Nat)[c]! < 6 ∧
+      (#[0, 0, 1, 1, 3, 6] : Array Nat)[(#[1, 3, 6, 4, 6, 6] : Array Nat)[c]!]! = c ∧
+      (#[1, 3, 6, 4, 6, 6] : Array Nat)[c]! ≠ c) := by decide
 
 end Pf.C19
